@@ -501,9 +501,13 @@ class ObservableResource(Resource, metaclass=abc.ABCMeta):
         # not work so far anyway).
 
         servobs = ServerObservation()
-        await self.add_observation(pipe.request, servobs)
 
         try:
+            # Inside the try block: add_observation may suspend (or raise)
+            # after it has accepted the observation, and a task cancelled
+            # there still owes the resource its cancellation callback.
+            await self.add_observation(pipe.request, servobs)
+
             first_response = await self.render(pipe.request)
 
             if (
